@@ -47,7 +47,7 @@ fn depth(plan: &str, _v: &str, t: Tier) -> usize {
     }
 }
 
-fn boot(plan: &str, _t: Tier) -> BootCfg {
+fn boot(plan: &str, _v: &str, _t: Tier) -> BootCfg {
     BootCfg::new(plan)
 }
 
